@@ -135,7 +135,7 @@ PROPERTIES = {
         "assumptions": ["sqrt is an abstract function with sqrt 0 = 0, non-negativity and sqrt(c*c*x) = c*sqrt x", "scipy pdist computes the named metrics"],
     },
     "C13": {
-        "components": [("crowd3", 500, 10000)],
+        "components": [("crowd3", 500, 6000)],
         "gen_args_thorough": {"crowd3": {"max_n": 200}},
         "parallel": True,
         "rule": "non-dominated fronts of 1..40 points (thorough: ..200), 2..5 objectives: simplex-like and spherical continuous fronts, grid-valued fronts (coordinate and distance ties), a constant objective, tied extremes, badly scaled objectives, fronts with duplicates; n_remove = 0, 1 or uniform in 0..N; each case is evaluated by the compiled raw kernel, the pure-Python raw function, and through get_crowding_function(label).do in a process with and without the compiled extensions; compiled pcd with >= 3 objectives runs in isolated worker processes and only where the Lean kernel model predicts no out-of-bounds index; distinct = hash; non-trivial = more than 2 points and n_remove > 1",
@@ -144,7 +144,7 @@ PROPERTIES = {
                         "kernel memory safety for all inputs is NOT proved; known findings F2-F4 are genuine out-of-bounds accesses"],
     },
     "C14": {
-        "components": [("crowd3", 500, 10000), ("spnn", 200, 30000), ("trunc", 150, 6000)],
+        "components": [("crowd3", 500, 6000), ("spnn", 200, 30000), ("trunc", 150, 6000)],
         "parallel": True,
         "rule": "non-dominated fronts of 1..40 points (thorough: ..200), 2..5 objectives: simplex-like and spherical continuous fronts, grid-valued fronts (coordinate and distance ties), a constant objective, tied extremes, badly scaled objectives, fronts with duplicates; n_remove = 0, 1 or uniform in 0..N; each case is evaluated by the compiled raw kernel, the pure-Python raw function, and through get_crowding_function(label).do in a process with and without the compiled extensions; compiled pcd with >= 3 objectives runs in isolated worker processes and only where the Lean kernel model predicts no out-of-bounds index; distinct = hash; non-trivial = more than 2 points and n_remove > 1",
         "explanation": "theorems: the pure-Python engine is the definition itself (Prune.lean is both); cd/ce are engine-independent; C20.secondSmallest_mem for the spacing helper; the two engines are compared input by input on the real code (values within 1e-9, infinities at the same points) and each against its own bit-exact Lean model; the compiled spacing helper is compared with the NumPy expression of SpacingIndicator",
